@@ -673,6 +673,13 @@ def auth_cases(tier):
             if hdr:
                 for bi, m in flips(hdr, False):
                     out.append(('bignKeyUnwrap', c_unwrap(l, tok, m, d), key, 'header', bi))
+                # authentic token, the caller expects another header (NULL = 16 zero octets)
+                out.append(('bignKeyUnwrap', c_unwrap(l, tok, None, d), key, 'header:=NULL', 0))
+                out.append(('bignKeyUnwrap', c_unwrap(l, tok, bytes(16), d), key, 'header:=0', 0))
+                out.append(('bignKeyUnwrap', c_unwrap(l, tok, bytes(range(1, 17)), d), key, 'header:=other', 0))
+            else:
+                out.append(('bignKeyUnwrap', c_unwrap(l, tok, bytes(range(1, 17)), d), key, 'header:=nonzero', 0))
+                out.append(('bignKeyUnwrap', c_unwrap(l, tok, bytes(15) + b'\x80', d), key, 'header:=nonzero', 1))
     return out
 
 def sweep_cases(tier):
